@@ -45,8 +45,15 @@ func c16heartbeats(rep *vh.Report, seed uint64, idx int, P time.Duration) (spaci
 	r := vh.Sub(seed, fmt.Sprintf("c16-hb-%d", idx))
 	k := 1 + r.Intn(4)
 	sysType, apType := 1+r.Intn(30), r.Intn(20)
-	ver := 1 + r.Intn(200)
-	d := &dialect.Dialect{Version: ver, Messages: []message.Message{&common.MessageHeartbeat{}, &common.MessageRequestDataStream{}, &MessageVfUid{}}}
+	ver := []int{0, 0, 1, 2, 3, 255}[r.Intn(6)] + r.Intn(2)*r.Intn(120)
+	if ver > 255 {
+		ver = 255
+	}
+	outV := gomavlib.V2
+	if r.Chance(1, 3) {
+		outV = gomavlib.V1
+	}
+	d := &dialect.Dialect{Version: ver, Messages: []message.Message{&common.MessageHeartbeat{}, &common.MessageRequestDataStream{}, &MessageVfUid{}, &MessageVfLow{}}}
 	var trs []*fake.Transport
 	var eps []gomavlib.EndpointConf
 	for i := 0; i < k; i++ {
@@ -57,7 +64,7 @@ func c16heartbeats(rep *vh.Report, seed uint64, idx int, P time.Duration) (spaci
 	lport := freeTCPPort()
 	eps = append(eps, gomavlib.EndpointTCPServer{Address: fmt.Sprintf("127.0.0.1:%d", lport)})
 	spacingLate := false
-	node := &gomavlib.Node{Endpoints: eps, Dialect: d, OutVersion: gomavlib.V2, OutSystemID: 9, HeartbeatPeriod: P,
+	node := &gomavlib.Node{Endpoints: eps, Dialect: d, OutVersion: outV, OutSystemID: 9, HeartbeatPeriod: P,
 		HeartbeatSystemType: sysType, HeartbeatAutopilotType: apType, IdleTimeout: 10 * time.Second}
 	t0 := time.Now()
 	if err := node.Initialize(); err != nil {
@@ -74,7 +81,7 @@ func c16heartbeats(rep *vh.Report, seed uint64, idx int, P time.Duration) (spaci
 			case <-stop:
 				return
 			case <-time.After(P / 3):
-				_ = node.WriteMessageAll(&MessageVfUid{Uid: uint64(i)})
+				_ = node.WriteMessageAll(&MessageVfLow{Uid: uint64(i), Kind: 1})
 			}
 		}
 	}()
@@ -142,9 +149,12 @@ func c16heartbeats(rep *vh.Report, seed uint64, idx int, P time.Duration) (spaci
 			arrivals = append(arrivals, w.T)
 			rep.Eval(1)
 			rep.Count("heartbeats_seen", 1)
-			hb, err := hbLayout.Decode(f.Payload, true)
+			if (f.Version == 2) != (outV == gomavlib.V2) {
+				rep.Violation("what=hb-field:version", fmt.Sprintf("heartbeat sent in a v%d frame by a node configured for %v", f.Version, outV), nil)
+			}
+			hb, err := hbLayout.Decode(f.Payload, f.Version == 2)
 			if err != nil {
-				rep.Violation("what=hb-field:payload", "heartbeat payload does not decode", vh.Hex(w.Data))
+				rep.Violation("what=hb-field:payload", fmt.Sprintf("heartbeat payload does not decode in its frame's version (v%d, dialect version %d): %v", f.Version, ver, err), vh.Hex(w.Data))
 				continue
 			}
 			m := hb.Interface().(*common.MessageHeartbeat)
@@ -192,7 +202,7 @@ func c16heartbeats(rep *vh.Report, seed uint64, idx int, P time.Duration) (spaci
 		}
 	}
 	rep.Count("heartbeat_runs", 1)
-	rep.Distinct("hb", k, sysType, apType, ver, int(P/time.Millisecond))
+	rep.Distinct("hb", k, sysType, apType, ver, int(P/time.Millisecond), outV)
 	return spacingBad || spacingLate
 }
 
@@ -371,6 +381,29 @@ func c16streamRequests(rep *vh.Report, seed uint64, idx int) {
 	for i, tr := range trs {
 		tr.WaitWrites(wantPer[i], 800*time.Millisecond)
 	}
+	// a re-created channel is a new channel: the first ArduPilot heartbeat of an already known sender on it triggers again
+	recreated := map[int]srcTuple{}
+	if r.Chance(1, 2) {
+		for _, t := range tuples {
+			if t.autopilot == 3 {
+				if _, done := recreated[t.ch]; !done {
+					recreated[t.ch] = t
+				}
+			}
+		}
+		for ch, t := range recreated {
+			before := len(cons.allChannels())
+			trs[ch].FeedError(errSession)
+			waitFor(func() bool { return len(cons.allChannels()) > before && len(cons.openChannels()) >= k }, cons.nEvents, time.Second)
+			base := trs[ch].NWrites()
+			trs[ch].Feed(hbFrame(t.sys, t.comp, 3, 99))
+			if expectReq {
+				trs[ch].WaitWrites(base+7, 800*time.Millisecond)
+			}
+			trs[ch].WaitDrained(time.Second)
+			rep.Count("recreated_channels", 1)
+		}
+	}
 	time.Sleep(5 * time.Millisecond)
 	node.Close()
 	<-cons.done
@@ -412,7 +445,11 @@ func c16streamRequests(rep *vh.Report, seed uint64, idx int) {
 		key := tk{t.ch, t.sys, t.comp}
 		g := got[key]
 		delete(got, key)
-		if expectReq && t.autopilot == 3 {
+		if rt, ok := recreated[t.ch]; ok && rt == t && expectReq {
+			if !reflect.DeepEqual(g, append(append([]int{}, wantStreams...), wantStreams...)) {
+				rep.Violation("what=sr-count", fmt.Sprintf("sender (%d,%d): after its channel %d was closed and re-created its first heartbeat on the new channel must trigger the seven requests again; got %v in total", t.sys, t.comp, t.ch, g), nil)
+			}
+		} else if expectReq && t.autopilot == 3 {
 			if !reflect.DeepEqual(g, wantStreams) {
 				what := "sr-count"
 				if len(g) > 7 {
@@ -430,6 +467,13 @@ func c16streamRequests(rep *vh.Report, seed uint64, idx int) {
 	}
 	// events: exactly one per triggering sender
 	evGot := map[tk]int{}
+	for _, ci := range cons.allChannels() { // channels re-created during the run are attributed to their transport too
+		for i, tr := range trs {
+			if ci.Tr == tr {
+				chanOf[ci.Ch] = i
+			}
+		}
+	}
 	for _, e := range cons.log {
 		if e.Type == "streamreq" {
 			evGot[tk{chanOf[e.Ch], e.Sys, e.Comp}]++
@@ -442,6 +486,9 @@ func c16streamRequests(rep *vh.Report, seed uint64, idx int) {
 		want := 0
 		if expectReq && t.autopilot == 3 {
 			want = 1
+			if rt, ok := recreated[t.ch]; ok && rt == t {
+				want = 2
+			}
 		}
 		if n != want {
 			rep.Violation("what=sr-event", fmt.Sprintf("%d stream-requested events for sender (%d,%d) on channel %d, expected %d", n, t.sys, t.comp, t.ch, want), nil)
@@ -509,7 +556,7 @@ func TestC16(t *testing.T) {
 	rep.Assume("spacing is judged on the median and only after a re-run at a 5x larger period also fails (load robustness)")
 	seed := shardSeed()
 	shard, nsh := shardInfo()
-	n := vh.Pick(6, 60)
+	n := vh.Pick(6, 200)
 	for i := 0; i < n; i++ {
 		if i%nsh != shard {
 			continue
@@ -527,7 +574,7 @@ func TestC16(t *testing.T) {
 	if shard == 0 {
 		c16noHeartbeats(rep)
 	}
-	for i := 0; i < vh.Pick(40, 600); i++ {
+	for i := 0; i < vh.Pick(60, 3000); i++ {
 		if i%nsh == shard {
 			c16streamRequests(rep, seed, i)
 		}
